@@ -6,6 +6,7 @@ import (
 	"fmt"
 	"os"
 	"path/filepath"
+	"sort"
 	"sync"
 	"sync/atomic"
 	"time"
@@ -866,6 +867,21 @@ func (m *Manager) loadSSTables() error {
 		return fmt.Errorf("failed to read SSTable directory: %w", err)
 	}
 
+	// Readers are searched from the end of the list, so order the files from
+	// oldest to newest data: deeper levels first and, inside a level, by
+	// creation time (the per-level file number restarts with every process)
+	sort.SliceStable(entries, func(i, j int) bool {
+		li, ti, oki := parseSSTableName(entries[i].Name())
+		lj, tj, okj := parseSSTableName(entries[j].Name())
+		if !oki || !okj {
+			return entries[i].Name() < entries[j].Name()
+		}
+		if li != lj {
+			return li > lj
+		}
+		return ti < tj
+	})
+
 	// Loop through all entries
 	for _, entry := range entries {
 		if entry.IsDir() || filepath.Ext(entry.Name()) != ".sst" {
@@ -881,9 +897,26 @@ func (m *Manager) loadSSTables() error {
 
 		// Add to the list
 		m.sstables = append(m.sstables, reader)
+
+		// Continue the file numbering after the highest number in use, so
+		// that a higher number always means a more recently written file
+		var level int
+		var sequence uint64
+		var timestamp int64
+		if n, _ := fmt.Sscanf(entry.Name(), sstableFilenameFormat, &level, &sequence, &timestamp); n == 3 && sequence >= m.nextFileNum {
+			m.nextFileNum = sequence + 1
+		}
 	}
 
 	return nil
+}
+
+// parseSSTableName extracts the level and the creation timestamp from an
+// SSTable file name of the form level_sequence_timestamp.sst
+func parseSSTableName(name string) (level int, timestamp int64, ok bool) {
+	var sequence uint64
+	n, err := fmt.Sscanf(name, sstableFilenameFormat, &level, &sequence, &timestamp)
+	return level, timestamp, n == 3 && err == nil
 }
 
 // recoverFromWAL recovers memtables from existing WAL files
